@@ -10,7 +10,7 @@
 //	R1  for k, v := range <map>   -> iterate verifrt.Keys(<map>, site)
 //	R2  time.Now                  -> verifrt.Now
 //	R3  os.Exit                   -> verifrt.Exit
-//	R4  yield points before send/close/Lock/Wait/Done, after receive and after close;
+//	R4  yield points before send/close/Lock/Wait/Done, after receive, after close, before every sync/atomic operation;
 //	    `go f(args)` -> verifrt.Go(site, ...)
 //
 // usage: seamgen <repo> <outdir> <verifrt-src-dir>
@@ -237,6 +237,12 @@ func main() {
 					default:
 						counts["go-unhandled"]++
 					}
+				case *ast.CallExpr:
+					// sync/atomic operations (package functions and methods of the atomic types)
+					if se, ok := x.Fun.(*ast.SelectorExpr); ok && isAtomicOp(p, se) {
+						fe.repl(off(se.Pos()), off(se.End()), "verifrt.YieldThen("+text(se)+", "+site("atomic", x.Pos())+")")
+						counts["atomic"]++
+					}
 				case *ast.SendStmt:
 					if inList[x] {
 						yieldBefore("send", x)
@@ -398,6 +404,20 @@ func syncCall(p *packages.Package, call *ast.CallExpr) string {
 		return strings.TrimPrefix(fn.Name(), "R")
 	}
 	return ""
+}
+
+func isAtomicOp(p *packages.Package, se *ast.SelectorExpr) bool {
+	if id, ok := se.X.(*ast.Ident); ok {
+		if pn, ok := p.TypesInfo.Uses[id].(*types.PkgName); ok {
+			return pn.Imported().Path() == "sync/atomic"
+		}
+	}
+	if s, ok := p.TypesInfo.Selections[se]; ok {
+		if fn, ok := s.Obj().(*types.Func); ok && fn.Pkg() != nil && fn.Pkg().Path() == "sync/atomic" {
+			return true
+		}
+	}
+	return false
 }
 
 func hasRecv(n ast.Node) bool {
